@@ -37,6 +37,7 @@ type shrinker struct {
 	maxTries int
 	deadline time.Time
 	kept     []string // identifiers that could not be renamed canonically (the failure depends on them)
+	partial  bool     // the budget ran out before the canonical renaming was finished
 }
 
 func (sh *shrinker) exhausted() bool {
@@ -673,6 +674,10 @@ func (sh *shrinker) canonicalNames(cur **subject) {
 	if same {
 		return
 	}
+	if sh.exhausted() {
+		sh.partial = true
+		return
+	}
 	c := s.clone()
 	c.Prog = rename(s.Prog, full)
 	if sh.try(c) {
@@ -685,6 +690,10 @@ func (sh *shrinker) canonicalNames(cur **subject) {
 	for _, id := range ids {
 		if id.Name == full[id] {
 			continue
+		}
+		if sh.exhausted() {
+			sh.partial = true
+			break
 		}
 		trial := map[ident]string{}
 		for k, v := range applied {
@@ -708,8 +717,11 @@ func (sh *shrinker) canonicalNames(cur **subject) {
 	}
 	c = s.clone()
 	c.Prog = rename(s.Prog, applied)
-	if len(applied) > 0 && sh.try(c) {
-		*cur = c
+	if len(applied) > 0 {
+		sh.maxTries++ // the combination has been tried step by step: one more run to adopt it
+		if sh.try(c) {
+			*cur = c
+		}
 	}
 	sort.Strings(sh.kept)
 }
